@@ -9,6 +9,9 @@
 //! Stage B (`dec`/`recs`/`skip`): correspondence only, on illegal layouts and mutated / truncated streams,
 //!   raw record sequences and `Record::skip`.
 //! Stage C (`short`/`str`): `parse_short_string` / `parse_string` payloads (8-bit, 16-bit, empty, truncated).
+//! Stage F (`wb`): a raw Workbook stream (globals substream + sheet substreams) with records shorter than their
+//!   fixed layout, wrapped into a compound file and opened with `Xls::new`: the reader must answer Ok or Err,
+//!   never panic (robustness of xls.rs: the C06 overlap repaired together with C02's sites).
 //! Stage D (`file`): one layout of every table is wrapped into a complete .xls (compound file written by
 //!   `verif_harness::xlsw`, the SST + CONTINUE records being the Lean encoder's) with LABELSST cells for every
 //!   string, inline LABEL cells, FORMULA + STRING results and sheet names taken from the table; read through
@@ -907,6 +910,165 @@ fn run_file(seed: u64, case_line: &str, stream: &[u8]) -> Outcome {
     o
 }
 
+// ---------------------------------------------------------------- stage F: short records in a workbook stream
+
+/// `wb <hex of the Workbook stream>`: open through `Xls::new`, read every sheet; Ok or Err, never a panic
+fn run_wb(line: &str) -> Outcome {
+    let mut o = Outcome { input: line.to_string(), ..Default::default() };
+    let h = line.split_whitespace().nth(1).unwrap_or("-");
+    let stream = unhex(h);
+    let mut rng = Rng::new(7);
+    let bytes = verif_harness::cfbw::write_cfb(&[("Workbook".to_string(), stream)], &verif_harness::cfbw::CfbOpts::default(), &mut rng);
+    o.count("wb.cases");
+    let res = guarded(|| -> String {
+        match Xls::new(std::io::Cursor::new(bytes)) {
+            Ok(mut wb) => {
+                for n in wb.sheet_names() {
+                    let _ = wb.worksheet_range(&n);
+                    let _ = wb.worksheet_formula(&n);
+                    let _ = wb.worksheet_merge_cells(&n);
+                }
+                "ok".to_string()
+            }
+            Err(e) => canon_err(&format!("{e:?}")),
+        }
+    });
+    match res {
+        Ok(r) => {
+            o.impl_out = r.clone();
+            o.nontrivial = true;
+            o.count(&format!("wb.result.{}", r.split(':').take(3).collect::<Vec<_>>().join(":")));
+        }
+        Err(msg) => {
+            o.impl_out = "panic".into();
+            let site = if msg.contains("index out of bounds") {
+                "index"
+            } else if msg.contains("range") || msg.contains("slice") {
+                "slice"
+            } else if msg.contains("unwrap") {
+                "unwrap"
+            } else if msg.contains("overflow") {
+                "overflow"
+            } else {
+                "other"
+            };
+            o.fail("impl_vs_spec", &format!("malformed_workbook_panic:{site}"), "panic", "(no file-level model)", "Ok or Err");
+        }
+    }
+    o
+}
+
+/// a small well-formed workbook stream as a list of records, then one fault: a record cut to a random shorter length
+fn gen_wb(rng: &mut Rng) -> Vec<u8> {
+    use verif_harness::xlsw as x;
+    let mut g: Vec<(u16, Vec<u8>)> = vec![];
+    g.push((x::BOF, x::bof(0x0005)[4..].to_vec()));
+    g.push((x::CODEPAGE, 1200u16.to_le_bytes().to_vec()));
+    g.push((x::DATEMODE, vec![0, 0]));
+    let mut fmt = 164u16.to_le_bytes().to_vec();
+    fmt.extend(x::xl_unicode_string("0.00", None, rng));
+    g.push((x::FORMAT, fmt));
+    g.push((x::XF, vec![0u8; 20]));
+    // sheet offset patched below
+    let mut bs = 0u32.to_le_bytes().to_vec();
+    bs.extend_from_slice(&[0, 0]);
+    bs.extend(x::short_xl_unicode_string("Sh", None, rng));
+    let bs_at = g.len();
+    g.push((x::BOUNDSHEET, bs));
+    g.push((x::SUPBOOK, vec![1, 0, 1, 4]));
+    g.push((x::EXTERNSHEET, vec![1, 0, 0, 0, 0, 0, 0, 0]));
+    // Lbl: grbit, chKey, cch, cce, reserved, itab, 4 reserved, name (flag + chars), rgce
+    let rgce: Vec<u8> = vec![0x3a, 0, 0, 1, 0, 2, 0];
+    let mut lbl = vec![0u8, 0, 0, 2];
+    lbl.extend_from_slice(&(rgce.len() as u16).to_le_bytes());
+    lbl.extend_from_slice(&[0u8; 8]);
+    lbl.extend_from_slice(&[0, b'N', b'm']);
+    lbl.extend_from_slice(&rgce);
+    g.push((x::LBL, lbl));
+    let mut sst = vec![1u8, 0, 0, 0, 1, 0, 0, 0];
+    sst.extend_from_slice(&[2, 0, 0x0D, 1, 0, 2, 0, 0, 0, b'a', 0, b'b', 0, 1, 2, 3, 4, 9, 9]);
+    g.push((x::SST, sst));
+    g.push((x::EOF, vec![]));
+    let mut sh: Vec<(u16, Vec<u8>)> = vec![];
+    sh.push((x::BOF, x::bof(0x0010)[4..].to_vec()));
+    sh.push((x::DIMENSIONS, x::dimensions_payload(0, 3, 0, 3)));
+    let mut lab = x::cell_hdr(0, 0, 0);
+    lab.extend(x::xl_unicode_string("lab", None, rng));
+    sh.push((x::LABEL, lab));
+    let mut ls = x::cell_hdr(0, 1, 0);
+    ls.extend_from_slice(&0u32.to_le_bytes());
+    sh.push((x::LABELSST, ls));
+    sh.push((x::FORMULA, x::formula_payload(1, 0, 0, x::formula_value(&Cached::Num(1.0)), &rgce_int(1))));
+    sh.push((x::MERGECELLS, vec![1, 0, 0, 0, 1, 0, 0, 0, 1, 0]));
+    sh.push((x::EOF, vec![]));
+    // the fault
+    let total = g.len() + sh.len();
+    let k = rng.below(total as u64) as usize;
+    let glen0 = g.len();
+    let victim = if k < glen0 { &mut g[k] } else { &mut sh[k - glen0] };
+    match rng.below(6) {
+        0..=3 => {
+            let n = rng.below(victim.1.len() as u64 + 1) as usize;
+            victim.1.truncate(n);
+        }
+        4 => {
+            // (not in cell records: a far-away row/column makes Range allocate the dense bounding box, D37)
+            if !victim.1.is_empty() && k < bs_at + 5 {
+                let i = rng.below(victim.1.len() as u64) as usize;
+                victim.1[i] = *rng.pick(&[0u8, 1, 0x7F, 0xFF, 8, 12]);
+            }
+        }
+        _ => {}
+    }
+    let glen: usize = g.iter().map(|r| 4 + r.1.len()).sum();
+    let pos = if rng.chance(1, 12) { glen as u32 + rng.below(4000) as u32 } else { glen as u32 };
+    if g[bs_at].1.len() >= 4 {
+        g[bs_at].1[..4].copy_from_slice(&pos.to_le_bytes());
+    }
+    let mut out = x::frame(&g);
+    out.extend(x::frame(&sh));
+    out
+}
+
+/// one minimal workbook stream per repaired site (BOF + the short record [+ a sheet substream])
+fn wb_corpus() -> Vec<String> {
+    use verif_harness::xlsw as x;
+    let bof = (x::BOF, x::bof(0x0005)[4..].to_vec());
+    let globals_with = |r: (u16, Vec<u8>)| -> Vec<u8> { x::frame(&[bof.clone(), r, (x::EOF, vec![])]) };
+    let sheet_with = |r: (u16, Vec<u8>)| -> Vec<u8> {
+        // globals: BOF, BOUNDSHEET "S" at the offset of the sheet substream, EOF
+        let mut bs = vec![0u8, 0, 0, 0, 0, 0, 1, 0, b'S'];
+        let glen = (4 + bof.1.len()) + (4 + bs.len()) + 4;
+        bs[..4].copy_from_slice(&(glen as u32).to_le_bytes());
+        let mut out = x::frame(&[bof.clone(), (x::BOUNDSHEET, bs), (x::EOF, vec![])]);
+        out.extend(x::frame(&[(x::BOF, x::bof(0x0010)[4..].to_vec()), r, (x::EOF, vec![])]));
+        out
+    };
+    let mut v: Vec<Vec<u8>> = vec![
+        globals_with((x::CODEPAGE, vec![0xB0])),                       // CodePage: 1 byte
+        globals_with((x::DATEMODE, vec![])),                           // Date1904: empty
+        globals_with((x::FORMAT, vec![164, 0, 1, 0])),                 // FORMAT: no flags byte
+        globals_with((x::BOF, vec![0])),                               // a second BOF of 1 byte
+        globals_with((x::BOUNDSHEET, vec![0, 0, 0, 0, 0])),            // BoundSheet8: 5 bytes
+        globals_with((x::BOUNDSHEET, vec![0, 0, 0])),                  // BoundSheet8: 3 bytes
+        globals_with((x::LBL, vec![0, 0, 0, 1])),                      // Lbl: 4 bytes
+        globals_with((x::LBL, vec![0u8; 14])),                         // Lbl: no name
+        globals_with((x::LBL, { let mut l = vec![0u8, 0, 0, 4, 0, 0]; l.extend_from_slice(&[0u8; 8]); l.extend_from_slice(&[1, b'a', 0]); l })), // name cut
+        globals_with((x::LBL, { let mut l = vec![0u8, 0, 0, 1, 0x40, 0]; l.extend_from_slice(&[0u8; 8]); l.extend_from_slice(&[0, b'a']); l })), // cce > record
+        globals_with((x::LBL, { let mut l = vec![0u8, 0, 0, 1, 3, 0]; l.extend_from_slice(&[0u8; 8]); l.extend_from_slice(&[0, b'a', 0x3a, 0, 0]); l })), // rgce: PtgRef3d cut
+        globals_with((x::EXTERNSHEET, vec![1])),                       // ExternSheet: 1 byte
+        globals_with((x::EXTERNSHEET, vec![2, 0, 0, 0, 0, 0, 0, 0, 1, 0, 0])), // second XTI cut
+        globals_with((x::BOUNDSHEET, vec![0xFF, 0xFF, 0xFF, 0, 0, 0, 1, 0, b'S'])), // sheet offset beyond the stream
+        globals_with((x::SST, vec![1, 0, 0, 0, 0xFF, 0xFF, 0xFF, 0xFF])),           // negative cstUnique
+        globals_with((x::SST, vec![1, 0, 0, 0, 1, 0, 0, 0, 0, 0, 0x0C])),           // cRun / cbExtRst cut by the record end
+        sheet_with((x::MERGECELLS, vec![1])),                          // MERGECELLS: 1 byte
+        sheet_with((x::MERGECELLS, vec![2, 0, 0, 0, 1, 0, 0, 0, 1, 0])), // count 2, one entry
+        sheet_with((x::FORMULA, vec![0u8; 21])),                       // FORMULA: cce cut
+        sheet_with((x::FORMULA, { let mut f = vec![0u8; 20]; f.extend_from_slice(&[9, 0, 0x1E, 1]); f })), // cce > rgce
+    ];
+    v.drain(..).map(|b| format!("wb {}", hexs(&b))).collect()
+}
+
 // ---------------------------------------------------------------- generators for the raw stages
 
 fn rec(typ: u16, payload: &[u8]) -> Vec<u8> {
@@ -994,10 +1156,12 @@ fn mutate(stream: &[u8], rng: &mut Rng) -> Vec<u8> {
             // cstUnique off by a little
             if s.len() >= 12 {
                 let v = u32::from_le_bytes([s[8], s[9], s[10], s[11]]);
-                let v = match rng.below(4) {
+                let v = match rng.below(6) {
                     0 => v.wrapping_add(1),
                     1 => v.wrapping_sub(1),
                     2 => v + 7,
+                    3 => 0x7FFF_FFFF,
+                    4 => 0x8000_0000 | v,
                     _ => 0,
                 };
                 s[8..12].copy_from_slice(&v.to_le_bytes());
@@ -1020,13 +1184,10 @@ fn mutate(stream: &[u8], rng: &mut Rng) -> Vec<u8> {
     s
 }
 
-/// `Vec::with_capacity(cstUnique)` in parse_sst: keep mutated counts where the allocation stays small
-/// (a negative count panics before allocating and is fine)
-fn alloc_safe(s: &[u8]) -> bool {
-    if s.len() >= 12 && s[0] == 0xFC && s[1] == 0 {
-        let v = u32::from_le_bytes([s[8], s[9], s[10], s[11]]);
-        return v <= 1_000_000 || v >= 0x8000_0000;
-    }
+/// (before fix 9c57a3b `Vec::with_capacity(cstUnique)` made huge declared counts abort the process and the
+/// mutated counts had to be kept small)
+fn alloc_safe(_s: &[u8]) -> bool {
+    // since fix 9c57a3b `parse_sst` bounds its reservation by the record bytes: any count may be tried
     true
 }
 
@@ -1146,7 +1307,8 @@ fn corpus() -> Vec<(String, Option<String>)> {
     ];
     // whole file: BOM-like units at segment starts in SST, LABEL and a sheet name
     v.push(("file 1 case 1 6100fffe6200,~,~,0,1,1:1,-,-;fffe6100,~,~,0,1,-,-,-;-,~,~,0,1,-,-,-".into(), None));
-    // known (C06 overlap): header fields cut by a record end, negative cstUnique
+    // fixed 9c57a3b (C06 overlap): header fields cut by a record end, negative cstUnique, cstUnique = 2^31-1 (reservation)
+    v.push(("dec fc000c0001000000ffffff7f00000000".into(), None));
     v.push(("dec fc000b00010000000100000000000c".into(), None));
     v.push(("dec fc000c0001000000ffffffff00000000".into(), None));
     // illegal: surrogate pair split across records (each half decodes to U+FFFD) — correspondence only
@@ -1212,6 +1374,7 @@ enum Job {
     Recs(u64),
     Skip(u64),
     Str(u64),
+    Wb(u64),
     Line(String, Option<String>),
 }
 
@@ -1237,6 +1400,8 @@ fn run_job_inner(job: &Job, drv: &mut Driver) -> Vec<Outcome> {
                 let reply = drv.ask(case_line);
                 let stream = unhex(field(&reply, "bytes", "legal").unwrap_or("-"));
                 vec![run_file(seed.parse().unwrap_or(0), case_line, &stream)]
+            } else if l.starts_with("wb ") {
+                vec![run_wb(l)]
             } else if l.starts_with("case ") {
                 vec![run_case(l, drv)]
             } else {
@@ -1330,6 +1495,11 @@ fn run_job_inner(job: &Job, drv: &mut Driver) -> Vec<Outcome> {
             let (n, s) = gen_skip_case(&mut rng);
             vec![run_raw(&format!("skip {n} {}", hexs(&s)), drv, None)]
         }
+        Job::Wb(seed) => {
+            let mut rng = Rng::new(*seed);
+            let s = gen_wb(&mut rng);
+            vec![run_wb(&format!("wb {}", hexs(&s)))]
+        }
         Job::Str(seed) => {
             let mut rng = Rng::new(*seed);
             let (line, expect) = gen_str_case(&mut rng);
@@ -1354,6 +1524,9 @@ fn main() {
          stage D: one layout of each table inside a complete .xls (xlsw writer, random compound-file layout): LABELSST cell per \
          string, inline LABEL cells and FORMULA+STRING results for strings <= 2000 units, sheet names = first <= 30 units of a \
          table string (NUL excluded), read through Xls::new / sheet_names / worksheet_range against the stored text. \
+         stage F: a small workbook stream (BOF, CODEPAGE, DATEMODE, FORMAT, XF, BOUNDSHEET, SUPBOOK, EXTERNSHEET, LBL, SST, EOF + a \
+         sheet with DIMENSIONS, LABEL, LABELSST, FORMULA, MERGECELLS) with one record cut to a random shorter length or one \
+         byte replaced, sometimes a sheet offset beyond the stream, opened with Xls::new and every sheet read: Ok or Err, no panic. \
          stage E: the Workbook/Book stream of every tests/*.xls fixture through the SST reader (impl vs model). \
          stage C: parse_short_string/parse_string payloads (BIFF8 8/16-bit and BIFF5, empty, truncated) against the stored text \
          (not asserted: the empty BIFF5 short string, whose only reader is the sheet-name field). \
@@ -1366,6 +1539,9 @@ fn main() {
     } else {
         for (l, e) in corpus() {
             jobs.push(Job::Line(l, e));
+        }
+        for l in wb_corpus() {
+            jobs.push(Job::Line(l, None));
         }
         let fx = fixture_streams();
         rep.add("fixture.workbook_streams", fx.len() as u64);
@@ -1384,6 +1560,7 @@ fn main() {
             jobs.push(Job::Skip(rng.next()));
             jobs.push(Job::Str(rng.next()));
             jobs.push(Job::Str(rng.next()));
+            jobs.push(Job::Wb(rng.next()));
         }
     }
     let threads = if args.replay.is_some() {
